@@ -240,6 +240,8 @@ class Frame:
 
 def contains_yield(node):
     for st in node.body if isinstance(node.body, list) else [node.body]:
+        if isinstance(st, (ast.FunctionDef, ast.ClassDef)):
+            continue            # a nested definition is not part of this function's own body
         for n in walk_no_nested(st):
             if isinstance(n, (ast.Yield, ast.YieldFrom)):
                 return True
